@@ -766,6 +766,27 @@ def tree_group_family(seed, n, maxlen=4, budget=6000, kinds=("alt", "adj", "acmd
     return out
 
 
+def adj_alt_family(seed, n, maxlen=5, budget=6000):
+    """a repeated choice between adjacent groups (`(--circle R | --rect W H | --origin)...`): one value per block, in order"""
+    rnd = random.Random(seed)
+    out = []
+    for i in range(n):
+        pool = [lambda: adjf("g0", "many", rf("h0", "one", "--circle"), posm("r", "int")),
+                lambda: adjf("g1", "many", rf("h1", "one", "--rect"), posm("w", "int"), posm("h", "int")),
+                lambda: adjf("g2", "many", rf("h2", "one", "--origin")),
+                lambda: adjf("g3", "many", rf("h3", "one", "--text"), ar("t", "one", "str", "--msg"))]
+        picks = [pool[(i + j) % 4]() for j in range(2 + i % 2)]
+        for g in picks:
+            g["joined"] = "J"
+        others = [sw("o1", "-v")] if i % 3 == 0 else []
+        tail = postail(pos("p0", "many")) if i % 4 == 3 else NOTAIL
+        d = mkdef(f"adjalt{seed}_{i}", level(others + picks, tail), maxlen=maxlen, extras=rnd.choice([("unk",), ("dd",), ()]),
+                  spells=("eq",), words=("1", "2"))
+        galpha_trim(d, budget)
+        out.append(d)
+    return out
+
+
 def acmd_with_alt_family(seed, n, maxlen=4, budget=6000):
     """mutually exclusive flags next to an adjacent subcommand with a required argument: an item of the losing branch
     typed inside the command's block, help after it"""
